@@ -24,9 +24,17 @@ Definition str_nonempty (s : str) : bool := match s with [] => false | _ => true
 (* ---- DFXP ------------------------------------------------------------------ *)
 (* _recreate_style(node.content): only 'italics' and 'color' of the modelled keys produce an attribute;
    `if 'italics' in content` - membership, the generators only use True values *)
+(* xml.sax.saxutils.quoteattr (the repaired writers quote attribute values with it) *)
+Definition mem_ch (c : Z) (s : str) : bool := existsb (Z.eqb c) s.
+Definition quoteattr (s : str) : str :=
+  let d := replace [9] (lit "&#9;") (replace [13] (lit "&#13;") (replace [10] (lit "&#10;") (xml_escape s))) in
+  if mem_ch 34 d then
+    if mem_ch 39 d then [34] ++ replace [34] (lit "&quot;") d ++ [34] else [39] ++ d ++ [39]
+  else [34] ++ d ++ [34].
+
 Definition dfxp_style_attrs (st : style) : str :=
   (if st_i st then lit " tts:fontStyle=""italic""" else []) ++
-  (match st_color st with Some c => lit " tts:color=""" ++ c ++ lit """" | None => [] end).
+  (match st_color st with Some c => lit " tts:color=" ++ quoteattr c | None => [] end).
 
 Definition close_span (line : str) : str := rstrip line ++ lit "</span> ".
 Definition br_markup : str := lit "<br/>" ++ [10] ++ lit "    ".
